@@ -86,7 +86,10 @@ pub fn energy_performance(
 
     // Compute balance for each carrier and accumulate partial balance values for total balance
     let mut balance_cr: HashMap<Carrier, BalanceCarrier> = HashMap::new();
-    for cr in &components.available_carriers() {
+    // Recorre los vectores en un orden fijo para que los totales acumulados no dependan del orden de iteración
+    let mut carriers: Vec<Carrier> = components.available_carriers().into_iter().collect();
+    carriers.sort();
+    for cr in &carriers {
         // Compute balance for this carrier ---
         let bal_cr = balance_for_carrier(*cr, &components, &wfactors, k_exp, load_matching)?;
         // Add up to the global balance
@@ -133,21 +136,24 @@ pub fn energy_performance(
 /// Cogen generation is considered onsite (and its renewable contribution depends on the step A factor)
 fn ren_onst_nrb(balance_cr: &HashMap<Carrier, BalanceCarrier>, k_exp: f32) -> (f32, f32) {
     // 1. Renewable energy from all nearby carriers (excluding electricity)
-    let ren_nrb_cr = balance_cr
+    // Carriers are visited in a fixed order so that the sums do not depend on the iteration order of the map
+    let mut carriers: Vec<&Carrier> = balance_cr.keys().collect();
+    carriers.sort();
+    let ren_nrb_cr = carriers
         .iter()
-        .map(|(carrier, bal)| {
+        .map(|&carrier| {
             if carrier.is_nearby() {
-                bal.we.b.ren
+                balance_cr[carrier].we.b.ren
             } else {
                 0.0
             }
         })
         .sum::<f32>();
-    let ren_onst_cr = balance_cr
+    let ren_onst_cr = carriers
         .iter()
-        .map(|(carrier, bal)| {
+        .map(|&carrier| {
             if carrier.is_onsite() {
-                bal.we.b.ren
+                balance_cr[carrier].we.b.ren
             } else {
                 0.0
             }
